@@ -625,7 +625,7 @@ async def _async_parts(ctx) -> None:
     for idx in range(ctx.pick(1500, 20000)):
         if ctx.mine(idx):
             pairing_roundtrip(ctx, ctx.grng("C20.A", idx), idx)
-    fixtures = sorted(Path(REPO) / "tests/fixtures".glob("*.json"))
+    fixtures = sorted((Path(REPO) / "tests/fixtures").glob("*.json"))
     fi = 0
     for f in fixtures:
         try:
